@@ -28,7 +28,7 @@ BOUNDS = {
     'thorough': 'all operation sequences of length <= 4 over 41 operations (2.3 M histories); graph search to '
                 'closure with listener lists <= 3 per name',
 }
-ASSUMPTIONS = ['callbacks carrying an attribute named `_` are outside the alphabet (the emitter marks its once-wrappers with it, as tiny-emitter does, so off(name, cb) also removes a callable whose `_` equals cb)',
+ASSUMPTIONS = ['a callback carrying an attribute named `_` (what tiny-emitter marks its once-wrappers with) is a callback like any other: off(name, cb) does not remove a callable whose `_` equals cb',
                'callbacks are compared by identity; contexts are keyword dictionaries; listeners return False, 0, "", True or None - a return value never matters',
                'graph search merges histories whose *reference-model* states are equal; the implementation is '
                'replayed from one representative history per model state and probed by two emits per name']
